@@ -16,6 +16,7 @@
 //  3. steady-state churn (churn.go): 2..4 goroutines Free/Malloc records of the same one to three size classes
 //     while those classes are in free-list mode; same predicates plus the slot-by-slot structure check, panics
 //     and hangs inside Malloc/Free.  Quick and thorough.  (The -race variant of stream 2 is thorough only.)
+//
 // In all streams the property's own predicate is evaluated on the real code independently of the model.
 package main
 
@@ -26,6 +27,7 @@ import (
 	"os"
 	"os/exec"
 	"reflect"
+	"runtime"
 	"runtime/debug"
 	"sort"
 	"strconv"
@@ -44,22 +46,23 @@ var o *vlib.Oracle
 // geometry of the real build
 var (
 	hdrSize, pgSize, sliceHdr, osPage, nodeSz int
-	slots                                    []uint32 // after init(): includes the slice header
-	maxShared                                int
+	slots                                     []uint32 // after init(): includes the slice header
+	maxShared                                 int
 )
 
 // ------------------------------------------------------------------------------------------------
 // trace representation (also the replay format)
 
 type Op struct {
-	K    string `json:"op"`             // m f w d
+	K    string `json:"op"`             // m f w d c (c = full checkpoint: counters, every touched class, every live record)
 	Size int    `json:"size,omitempty"` // m
 	H    int    `json:"h,omitempty"`    // f, w: ordinal of the malloc that created the allocation
 }
 
 type Trace struct {
-	Name string `json:"name"`
-	Ops  []Op   `json:"ops"`
+	Name  string `json:"name"`
+	Ops   []Op   `json:"ops"`
+	Every int    `json:"every,omitempty"` // set when the trace was run with sparse per-step comparison: -replay uses the same spacing
 }
 
 type handle struct {
@@ -184,17 +187,19 @@ func slotRange(b *[]byte) (lo, hi uintptr) {
 // single-threaded differential run
 
 type diff struct {
-	a      *memory.Allocator
-	hs     []*handle
-	byPtr  map[uintptr]int // slot address -> handle
-	reg    *registry
-	pageID map[uintptr]int // real page base / private pointer -> model id
-	tr     *Trace
-	rp     interface{} // replay document when not a trace
-	dumpLen map[int]int // size of the last state dump per class (large states are compared less often)
-	step   int
-	failed bool
-	nlive  int
+	a         *memory.Allocator
+	hs        []*handle
+	byPtr     map[uintptr]int // slot address -> handle
+	reg       *registry
+	pageID    map[uintptr]int // real page base / private pointer -> model id
+	tr        *Trace
+	rp        interface{}  // replay document when not a trace
+	dumpLen   map[int]int  // size of the last state dump per class (large states are compared less often)
+	touched   map[int]bool // shared classes the trace has allocated in / freed from
+	relocated map[int]int  // class -> records relocated by the defrag passes of this trace (agreed with the model)
+	step      int
+	failed    bool
+	nlive     int
 }
 
 func (d *diff) prop(key, what string) {
@@ -355,7 +360,54 @@ func (d *diff) doWrite(hid int) {
 	r.Hit("write")
 }
 
-// compare counters; Bytes may include up to pageCacheHigh(+1 in flight) cached pages
+// bytesSettled compares the real Bytes counter EXACTLY with the model's byte count mb (which excludes the
+// page cache): Bytes == mb + pageSize*len(pageCache).
+//
+// Order of effects in the real code (memory.go / malloc.go / free.go):
+//   - pageCacheRefill (asynchronous goroutine): mmap; Bytes += pageSize; THEN channel put (and Bytes -= pageSize
+//     again + unmap when the channel turned out to be full). Between the Add and the put the counter is one page
+//     ahead of the channel per running refill goroutine; that window is a few instructions wide and closes by
+//     itself, so it is waited out here rather than tolerated.
+//   - Malloc taking a page out of the channel and Free putting an empty page into it do not touch Bytes (the page
+//     only changes sides between "class page" = model bytes and "cached"), mmapSharedPage's fallback mmap adds a
+//     page to both sides, Free with a full channel subtracts it; DefragAllImproved applies its accumulated delta
+//     before it returns. All of these are complete when the call has returned to this (single) goroutine.
+//
+// Hence at every point where this is called the equation holds except inside a refill goroutine's Add..put
+// window, where Bytes is too HIGH by one page per goroutine in that window. The loop reads cacheLen, Bytes,
+// cacheLen and accepts only when both cacheLen reads agree and the equation is exact, and the same again after a
+// runtime.Gosched(); otherwise it yields / sleeps (10 yields, then up to 50 x 1 ms) and tries again. No slack
+// remains: a counter that is off by one page after a Malloc, a Free or a defrag pass never settles and is
+// reported. (A counter one page too LOW could be hidden for one call by a refill goroutine descheduled exactly
+// inside its window during both reads; it is permanent, so the next call reports it.) Nothing read here is
+// recorded, so the evidence does not depend on scheduling.
+func (d *diff) bytesSettled(mb int64) (ok bool, bytes int64, cacheLen int) {
+	read := func() (bool, int64, int) {
+		c1 := d.a.VerifCacheLen()
+		b := d.a.Bytes.Load()
+		c2 := d.a.VerifCacheLen()
+		return c1 == c2 && b == mb+int64(pgSize)*int64(c1), b, c2
+	}
+	for try := 0; ; try++ {
+		ok, bytes, cacheLen = read()
+		if ok {
+			runtime.Gosched()
+			if ok, bytes, cacheLen = read(); ok {
+				return
+			}
+		}
+		if try >= 60 {
+			return
+		}
+		if try < 10 {
+			runtime.Gosched()
+		} else {
+			time.Sleep(time.Millisecond)
+		}
+	}
+}
+
+// compare counters; Bytes exactly (see bytesSettled)
 func (d *diff) checkCounters() {
 	if int(d.a.Allocs.Load()) != d.nlive {
 		d.prop("allocs-counter", fmt.Sprintf("Allocs=%d but %d allocations are live", d.a.Allocs.Load(), d.nlive))
@@ -379,10 +431,12 @@ func (d *diff) checkCounters() {
 		d.tie("mmaps-counter", fmt.Sprintf("PrivateMmaps=%d SharedMmaps=%d, model %d %d", d.a.PrivateMmaps.Load(), d.a.SharedMmaps.Load(), mp, ms))
 		return
 	}
-	slack := d.a.Bytes.Load() - mb
-	if slack < 0 || slack%int64(pgSize) != 0 || slack > int64(7*pgSize) {
-		d.tie("bytes-counter", fmt.Sprintf("Bytes=%d, model (without page cache) %d", d.a.Bytes.Load(), mb))
+	if ok, b, cl := d.bytesSettled(mb); !ok {
+		want := mb + int64(pgSize)*int64(cl)
+		d.tie("bytes-counter", fmt.Sprintf("Bytes=%d, expected exactly %d = model %d (without page cache) + %d cached pages x %d; difference %d bytes = %.3f pages, did not settle", b, want, mb, cl, pgSize, b-want, float64(b-want)/float64(pgSize)))
+		return
 	}
+	r.TieOK()
 }
 
 // the complete state of one class, real vs model
@@ -793,6 +847,16 @@ func (d *diff) doDefrag() {
 	}
 	r.Hit(fmt.Sprintf("defrag:pass relocated=%s", bucket(cnt)))
 	r.TieOK()
+	for c := 0; c < nc; c++ {
+		if d.relocated != nil {
+			d.relocated[c] += len(seq[c])
+		}
+		// a relocating pass in a small dense class (slot incl. slice header <= 128 bytes: thousands of slots per page)
+		if len(seq[c]) > 0 && int(slots[c]) <= 128 {
+			r.Hit("defrag:small-class")
+			r.Hit(fmt.Sprintf("defrag:small-class%02d relocated=%s", c, bucket(len(seq[c]))))
+		}
+	}
 	for c := range evacuated {
 		d.checkClass(c)
 		d.checkClassAgainstLive(c)
@@ -815,9 +879,55 @@ func bucket(n int) string {
 	return "10000+"
 }
 
+// fullCheck is the complete comparison made at the end of every trace and at every "c" op: counters (Bytes
+// exactly), for every class the trace has touched the class state incl. list order, the pointer layer and the
+// independent slot-by-slot predicate, and for every live allocation its slice header, its fill pattern and
+// the model's record of it (size, cap, last written tag, address).
+func (d *diff) fullCheck() {
+	if d.failed {
+		return
+	}
+	d.checkCounters()
+	cs := []int{}
+	for c := range d.touched {
+		cs = append(cs, c)
+	}
+	sort.Ints(cs)
+	for _, c := range cs {
+		d.checkClass(c)
+		d.checkClassAgainstLive(c)
+	}
+	if d.failed {
+		return
+	}
+	// every live allocation still holds what was last written to it; the model agrees
+	for hid, h := range d.hs {
+		if h.live {
+			if !d.checkLiveContent(hid, "at a checkpoint / the end of the trace") {
+				break
+			}
+			rep := o.MustAsk("live " + h.maddr)
+			want := fmt.Sprintf("ok %d:%d:%d:%s:%d:%d", h.size, cap(*h.ptr), h.tag, strings.Replace(strings.TrimPrefix(h.maddr, "s "), " ", ".", 1), h.size, h.tag)
+			if strings.HasPrefix(h.maddr, "p ") {
+				want = fmt.Sprintf("ok %d:%d:%d:p%s:%d:%d", h.size, cap(*h.ptr), h.tag, strings.TrimPrefix(h.maddr, "p "), h.size, h.tag)
+			}
+			if rep != want {
+				d.tie("model-live", fmt.Sprintf("allocation #%d: model %q, real %q", hid, rep, want))
+				break
+			}
+		}
+	}
+	if !d.failed && d.reg.count() != d.nlive {
+		d.tie("registry", "harness bookkeeping out of sync")
+	}
+}
+
 // runTrace executes one trace on a fresh allocator and a reset model. every = compare full class state
 // every that many steps (1 = always).
-func runTrace(tr *Trace, every int) {
+func runTrace(tr *Trace, every int) *diff {
+	if every > 1 {
+		tr.Every = every
+	}
 	announce(tr)
 	if os.Getenv("C20_TIMING") != "" {
 		t0 := time.Now()
@@ -833,8 +943,7 @@ func runTrace(tr *Trace, every int) {
 		fmt.Println("oracle reset failed:", rep)
 		os.Exit(3)
 	}
-	d := &diff{a: memory.NewAllocator(), byPtr: map[uintptr]int{}, reg: newRegistry(), pageID: map[uintptr]int{}, tr: tr}
-	touched := map[int]bool{}
+	d := &diff{a: memory.NewAllocator(), byPtr: map[uintptr]int{}, reg: newRegistry(), pageID: map[uintptr]int{}, tr: tr, touched: map[int]bool{}, relocated: map[int]int{}}
 	for i, op := range tr.Ops {
 		d.step = i
 		if d.failed {
@@ -862,9 +971,11 @@ func runTrace(tr *Trace, every int) {
 			}
 		case "d":
 			d.doDefrag()
+		case "c":
+			d.fullCheck()
 		}
 		if cl >= 0 {
-			touched[cl] = true
+			d.touched[cl] = true
 		}
 		if !d.failed && (every <= 1 || i%every == 0 || i == len(tr.Ops)-1) {
 			d.checkCounters()
@@ -873,38 +984,7 @@ func runTrace(tr *Trace, every int) {
 			}
 		}
 	}
-	if !d.failed {
-		d.checkCounters()
-		cs := []int{}
-		for c := range touched {
-			cs = append(cs, c)
-		}
-		sort.Ints(cs)
-		for _, c := range cs {
-			d.checkClass(c)
-			d.checkClassAgainstLive(c)
-		}
-		// every live allocation still holds what was last written to it; the model agrees
-		for hid, h := range d.hs {
-			if h.live {
-				if !d.checkLiveContent(hid, "at the end of the trace") {
-					break
-				}
-				rep := o.MustAsk("live " + h.maddr)
-				want := fmt.Sprintf("ok %d:%d:%d:%s:%d:%d", h.size, cap(*h.ptr), h.tag, strings.Replace(strings.TrimPrefix(h.maddr, "s "), " ", ".", 1), h.size, h.tag)
-				if strings.HasPrefix(h.maddr, "p ") {
-					want = fmt.Sprintf("ok %d:%d:%d:p%s:%d:%d", h.size, cap(*h.ptr), h.tag, strings.TrimPrefix(h.maddr, "p "), h.size, h.tag)
-				}
-				if rep != want {
-					d.tie("model-live", fmt.Sprintf("allocation #%d: model %q, real %q", hid, rep, want))
-					break
-				}
-			}
-		}
-		if d.reg.count() != d.nlive {
-			d.tie("registry", "harness bookkeeping out of sync")
-		}
-	}
+	d.fullCheck()
 	// release everything so the next trace starts from a clean process state
 	for _, h := range d.hs {
 		if h.live && !d.failed {
@@ -912,6 +992,7 @@ func runTrace(tr *Trace, every int) {
 		}
 	}
 	r.Eval("trace:"+strings.SplitN(tr.Name, "#", 2)[0], tr.Name+fmt.Sprint(len(tr.Ops), tr.Ops[len(tr.Ops)/2]))
+	return d
 }
 
 // ------------------------------------------------------------------------------------------------
@@ -1106,6 +1187,109 @@ func genDefrag(g *vlib.Rng, name string, c int, pages int, pattern int) *Trace {
 	return tr
 }
 
+// genDefragSmall: ONE relocating defragmentation pass in a small dense class c (thousands of slots per page).
+// 15..17 pages are filled completely (the last one partly: it stays the bump-allocation page), then every page
+// is emptied except for a few records at random slot positions: one page keeps nothing (used == 0, evacuated
+// first, nothing to move), one keeps about half (sorted last, it stays and its free list receives relocated
+// records), all others keep 1..48 records, two of them the same number (a tie for sort.Slice). That leaves more
+// than 12 pages worth of free slots, so DefragAllImproved starts defragClass(c) and has to move the survivors
+// of about ten pages. Full checkpoints ("c") stand immediately before and after the pass; the bulk fill / bulk
+// free are run with sparse per-step comparison. Aftermath: allocate into the new layout, rewrite and free
+// survivors (relocated ones among them), checkpoint, second pass (below the threshold now: the trigger itself
+// is compared), final check.
+func genDefragSmall(g *vlib.Rng, name string, c int) *Trace {
+	tr := &Trace{Name: name}
+	capc := (pgSize - hdrSize) / int(slots[c])
+	lo := 0
+	if c > 0 {
+		lo = int(slots[c-1]) - sliceHdr + 1
+	}
+	hi := int(slots[c]) - sliceHdr
+	pages := 15 + g.Intn(3)
+	n := capc*pages - g.Intn(capc/2)
+	for i := 0; i < n; i++ {
+		tr.Ops = append(tr.Ops, Op{K: "m", Size: lo + g.Intn(hi-lo+1)})
+	}
+	// survivors per page
+	keepN := make([]int, pages)
+	for p := range keepN {
+		keepN[p] = 1 + g.Intn(48)
+	}
+	pEmpty := g.Intn(pages - 1)
+	pHalf := (pEmpty + 1 + g.Intn(pages-2)) % (pages - 1) // another page, never the partly filled last one
+	pTie := g.Intn(pages)
+	keepN[(pTie+1)%pages] = keepN[pTie]
+	keepN[pEmpty] = 0
+	keepN[pHalf] = capc/2 + g.Intn(capc/8)
+	keep := make([]bool, n)
+	var survivors []int
+	for p := 0; p < pages; p++ {
+		first, end := p*capc, (p+1)*capc
+		if end > n {
+			end = n
+		}
+		for k := 0; k < keepN[p] && k < end-first; {
+			i := first + g.Intn(end-first)
+			if !keep[i] {
+				keep[i] = true
+				survivors = append(survivors, i)
+				k++
+			}
+		}
+	}
+	// free the rest: pages in a permuted order, inside a page ascending or descending (free-list order differs)
+	perm := make([]int, pages)
+	for i := range perm {
+		perm[i] = i
+	}
+	for i := pages - 1; i > 0; i-- {
+		j := g.Intn(i + 1)
+		perm[i], perm[j] = perm[j], perm[i]
+	}
+	for _, p := range perm {
+		first, end := p*capc, (p+1)*capc
+		if end > n {
+			end = n
+		}
+		if g.Bool() {
+			for i := first; i < end; i++ {
+				if !keep[i] {
+					tr.Ops = append(tr.Ops, Op{K: "f", H: i})
+				}
+			}
+		} else {
+			for i := end - 1; i >= first; i-- {
+				if !keep[i] {
+					tr.Ops = append(tr.Ops, Op{K: "f", H: i})
+				}
+			}
+		}
+	}
+	tr.Ops = append(tr.Ops, Op{K: "c"}, Op{K: "d"}, Op{K: "c"})
+	// aftermath
+	nm := n
+	m := 200 + g.Intn(2000)
+	for i := 0; i < m; i++ {
+		tr.Ops = append(tr.Ops, Op{K: "m", Size: lo + g.Intn(hi-lo+1)})
+		nm++
+	}
+	for _, i := range survivors {
+		switch g.Intn(4) {
+		case 0:
+			tr.Ops = append(tr.Ops, Op{K: "w", H: i})
+		case 1:
+			tr.Ops = append(tr.Ops, Op{K: "f", H: i})
+		}
+	}
+	for i := n; i < nm; i++ {
+		if g.Chance(1, 3) {
+			tr.Ops = append(tr.Ops, Op{K: "f", H: i})
+		}
+	}
+	tr.Ops = append(tr.Ops, Op{K: "c"}, Op{K: "d"})
+	return tr
+}
+
 // ------------------------------------------------------------------------------------------------
 // concurrent stream (invariant only)
 
@@ -1117,10 +1301,10 @@ type cAlloc struct {
 
 func runConcurrent(name string, g *vlib.Rng, workers, phases, opsPerPhase int, bs []int, defragClassHint int) {
 	type rec struct {
-		Name                          string
-		Seed                          uint64
+		Name                         string
+		Seed                         uint64
 		Workers, Phases, OpsPerPhase int
-		Hint                          int
+		Hint                         int
 	}
 	seed := g.U64()
 	replay := map[string]interface{}{"concurrent": rec{name, seed, workers, phases, opsPerPhase, defragClassHint}}
@@ -1358,7 +1542,11 @@ func replayFile(path string, bs []int) {
 	}
 	var tr Trace
 	if json.Unmarshal(doc.Replay, &tr) == nil && len(tr.Ops) > 0 {
-		runTrace(&tr, 1)
+		every := 1
+		if tr.Every > 1 {
+			every = tr.Every // same comparison points as the recorded run ("c" ops are part of the trace itself)
+		}
+		runTrace(&tr, every)
 		return
 	}
 	var ch struct {
@@ -1376,10 +1564,10 @@ func replayFile(path string, bs []int) {
 	}
 	var cc struct {
 		Concurrent struct {
-			Name                          string
-			Seed                          uint64
+			Name                         string
+			Seed                         uint64
 			Workers, Phases, OpsPerPhase int
-			Hint                          int
+			Hint                         int
 		} `json:"concurrent"`
 	}
 	if json.Unmarshal(doc.Replay, &cc) == nil && cc.Concurrent.Workers > 0 {
@@ -1570,6 +1758,20 @@ func main() {
 		runTrace(tr, 5003)
 		tr = genDefrag(g, "defrag-p0-class15", 15, 18, 0)
 		runTrace(tr, 5003)
+	}
+	if r.Thorough() && (only == "" || only == "big" || only == "small") {
+		// a relocating pass in the smallest class (slot 96 bytes incl. header, 10922 slots per page); full
+		// checkpoints around the pass
+		c := 0
+		tr := genDefragSmall(g.Fork(), fmt.Sprintf("defrag-small-class%d", c), c)
+		nrel := -1 // -1: the trace was aborted by a panic (reported by runTrace)
+		if d := runTrace(tr, 4099); d != nil {
+			nrel = d.relocated[c]
+		}
+		r.Extra["small_class_defrag"] = map[string]interface{}{"class": c, "slot_bytes": slots[c], "slots_per_page": (pgSize - hdrSize) / int(slots[c]),
+			"ops": len(tr.Ops), "records_relocated": nrel}
+		r.Sample(map[string]interface{}{"trace": tr.Name, "ops": len(tr.Ops), "records_relocated": nrel,
+			"pattern": "15..17 pages of class 0 filled, all but 0..48 records per page freed, checkpoint, DefragAllImproved, checkpoint, aftermath"})
 	}
 
 	// 5. concurrent stream: 2..16 goroutines
